@@ -7,6 +7,12 @@ package keep_fields
 // buffers), and the real Do runs on a real insaneJSON root decoded from the case's document.  The encoded
 // result is compared, as an ORDERED token sequence, with the document the specification's declarative Keep
 // expects.  The same plugin instance then processes the same document a second time (instance reuse).
+//
+// WIDE cases (the document contains the marker member, key code 9): the marker stands for K never-selected
+// members junk_000.. (specification lemma WidthIndependent: K such members behave like one, in the document and
+// in the expected result alike).  Two plugin instances are started; one processes the document widened to
+// K = 1, 99, 100, 101, 150, 250 in this order, the other in the reverse order (a huge event first makes Go's
+// append reallocate a buffer for good), every event compared with the equally widened declarative expectation.
 
 import (
 	"bufio"
@@ -16,6 +22,7 @@ import (
 	"os"
 	"reflect"
 	"runtime"
+	"sort"
 	"strings"
 	"sync"
 	"testing"
@@ -31,68 +38,205 @@ const c18Plugin = "keep_fields"
 const (
 	c18WantIdx  = 3 // expected keep result
 	c18ModelIdx = 5 // transcription's prediction under D_SwapDelete (0 = same as expected)
+	c18IsKeep   = c18WantIdx == 3
 )
+
+const c18JunkKey = 9
 
 var c18KeyNames = map[int]string{1: "a", 2: "b", 3: "a.b", 4: "a.b.a", 5: "b.a"}
 var c18LeafText = map[int]string{1: `1`, 2: `"s"`, 3: `null`}
+var c18Widths = []int{1, 99, 100, 101, 150, 250}
 
-type c18Case struct {
-	Line  string
-	Fam   int
-	Doc   string
-	Sels  []string
-	Want  string
-	Model string // "" = same as Want
+// ordered JSON tree
+type c18Node struct {
+	kind int // 0 leaf, 1 object, 2 array
+	leaf int
+	keys []string
+	vals []*c18Node
 }
 
-// value encoding: leaf -> code; object -> [0,k1,v1,k2,v2,...]; array -> [1,e1,e2,...]
-func c18Render(v interface{}, sb *strings.Builder) {
+// value encoding: leaf -> code; object -> [0,k1,v1,k2,v2,...]; array -> [1,e1,e2,...].
+// A member with the marker key is replaced by `width` members junk_000.. with the same value.
+func c18Build(v interface{}, width int) *c18Node {
 	switch x := v.(type) {
 	case float64:
-		t, ok := c18LeafText[int(x)]
-		if !ok {
+		if _, ok := c18LeafText[int(x)]; !ok {
 			panic(fmt.Sprintf("bad leaf code %v", x))
 		}
-		sb.WriteString(t)
+		return &c18Node{kind: 0, leaf: int(x)}
 	case []interface{}:
 		if len(x) == 0 {
 			panic("empty container encoding")
 		}
 		if x[0].(float64) == 0 {
-			sb.WriteByte('{')
+			n := &c18Node{kind: 1}
 			for i := 1; i+1 < len(x); i += 2 {
-				if i > 1 {
-					sb.WriteByte(',')
+				code := int(x[i].(float64))
+				if code == c18JunkKey {
+					for j := 0; j < width; j++ {
+						n.keys = append(n.keys, fmt.Sprintf("junk_%03d", j))
+						n.vals = append(n.vals, c18Build(x[i+1], width))
+					}
+					continue
 				}
-				name, ok := c18KeyNames[int(x[i].(float64))]
+				name, ok := c18KeyNames[code]
 				if !ok {
 					panic(fmt.Sprintf("bad key code %v", x[i]))
 				}
-				kb, _ := json.Marshal(name)
-				sb.Write(kb)
-				sb.WriteByte(':')
-				c18Render(x[i+1], sb)
+				n.keys = append(n.keys, name)
+				n.vals = append(n.vals, c18Build(x[i+1], width))
 			}
-			sb.WriteByte('}')
-		} else {
-			sb.WriteByte('[')
-			for i := 1; i < len(x); i++ {
-				if i > 1 {
-					sb.WriteByte(',')
-				}
-				c18Render(x[i], sb)
-			}
-			sb.WriteByte(']')
+			return n
 		}
+		n := &c18Node{kind: 2}
+		for i := 1; i < len(x); i++ {
+			n.keys = append(n.keys, "")
+			n.vals = append(n.vals, c18Build(x[i], width))
+		}
+		return n
+	}
+	panic(fmt.Sprintf("bad value encoding %T", v))
+}
+
+func (n *c18Node) render(sb *strings.Builder) {
+	switch n.kind {
+	case 0:
+		sb.WriteString(c18LeafText[n.leaf])
+	case 1:
+		sb.WriteByte('{')
+		for i, k := range n.keys {
+			if i > 0 {
+				sb.WriteByte(',')
+			}
+			kb, _ := json.Marshal(k)
+			sb.Write(kb)
+			sb.WriteByte(':')
+			n.vals[i].render(sb)
+		}
+		sb.WriteByte('}')
 	default:
-		panic(fmt.Sprintf("bad value encoding %T", v))
+		sb.WriteByte('[')
+		for i := range n.vals {
+			if i > 0 {
+				sb.WriteByte(',')
+			}
+			n.vals[i].render(sb)
+		}
+		sb.WriteByte(']')
 	}
 }
 
-func c18Text(v interface{}) string {
+func (n *c18Node) text() string {
 	var sb strings.Builder
-	c18Render(v, &sb)
+	n.render(&sb)
 	return sb.String()
+}
+
+func (n *c18Node) clone() *c18Node {
+	c := &c18Node{kind: n.kind, leaf: n.leaf, keys: append([]string(nil), n.keys...)}
+	for _, v := range n.vals {
+		c.vals = append(c.vals, v.clone())
+	}
+	return c
+}
+
+func (n *c18Node) index(key string) int {
+	for i, k := range n.keys {
+		if k == key {
+			return i
+		}
+	}
+	return -1
+}
+
+// the known deviation (specification: D_SwapDelete): deleting member i moves the LAST member into its place
+func (n *c18Node) swapDelete(i int) {
+	last := len(n.keys) - 1
+	n.keys[i], n.vals[i] = n.keys[last], n.vals[last]
+	n.keys, n.vals = n.keys[:last], n.vals[:last]
+}
+
+// Which ORDER the known deviation gives for a document whose CONTENT expectation is `want` (used only to tell the
+// listed key-order finding from any other difference; cross-checked against the specification's own prediction
+// on every case that is not widened).
+// keep_fields: per object, the members that do not survive are deleted in document order.
+func c18PredictKeep(doc, want *c18Node) *c18Node {
+	if doc.kind != 1 || want.kind != 1 {
+		return doc.clone()
+	}
+	res := &c18Node{kind: 1}
+	var doomed []string
+	for i, k := range doc.keys {
+		res.keys = append(res.keys, k)
+		if j := want.index(k); j >= 0 {
+			res.vals = append(res.vals, c18PredictKeep(doc.vals[i], want.vals[j]))
+		} else {
+			res.vals = append(res.vals, doc.vals[i])
+			doomed = append(doomed, k)
+		}
+	}
+	for _, k := range doomed {
+		res.swapDelete(res.index(k))
+	}
+	return res
+}
+
+// remove_fields: the selectors, shortest first (stable), each dug through objects and deleted where it resolves
+func c18PredictRemove(doc *c18Node, sels [][]string) *c18Node {
+	res := doc.clone()
+	order := append([][]string(nil), sels...)
+	sort.SliceStable(order, func(i, j int) bool { return len(order[i]) < len(order[j]) })
+	for _, p := range order {
+		cur := res
+		for d, name := range p {
+			if cur.kind != 1 {
+				break
+			}
+			i := cur.index(name)
+			if i < 0 {
+				break
+			}
+			if d == len(p)-1 {
+				cur.swapDelete(i)
+				break
+			}
+			cur = cur.vals[i]
+		}
+	}
+	return res
+}
+
+type c18Case struct {
+	Line     string
+	Fam      int
+	Wide     bool
+	Sels     []string   // as the user writes them
+	Paths    [][]string // parsed key names
+	doc      interface{}
+	want     interface{}
+	model    interface{} // nil = same as want
+	hasModel bool
+}
+
+func c18HasJunk(v interface{}) bool {
+	x, ok := v.([]interface{})
+	if !ok || len(x) == 0 {
+		return false
+	}
+	if x[0].(float64) == 0 {
+		for i := 1; i+1 < len(x); i += 2 {
+			if int(x[i].(float64)) == c18JunkKey || c18HasJunk(x[i+1]) {
+				return true
+			}
+		}
+		return false
+	}
+	for i := 1; i < len(x); i++ {
+		if c18HasJunk(x[i]) {
+			return true
+		}
+	}
+	return false
 }
 
 func c18ParseCase(line string) (*c18Case, error) {
@@ -103,21 +247,24 @@ func c18ParseCase(line string) (*c18Case, error) {
 	if len(t) != 7 {
 		return nil, fmt.Errorf("case tuple has %d elements", len(t))
 	}
-	c := &c18Case{Line: line, Fam: int(t[0].(float64)), Doc: c18Text(t[1]), Want: c18Text(t[c18WantIdx])}
+	c := &c18Case{Line: line, Fam: int(t[0].(float64)), doc: t[1], want: t[c18WantIdx]}
+	c.Wide = c18HasJunk(t[1])
 	for _, p := range t[2].([]interface{}) {
-		var parts []string
+		var parts, names []string
 		for _, k := range p.([]interface{}) {
 			name, ok := c18KeyNames[int(k.(float64))]
 			if !ok {
 				return nil, fmt.Errorf("bad key code %v", k)
 			}
+			names = append(names, name)
 			// as a user writes it: a dot inside a field name is escaped with a backslash
 			parts = append(parts, strings.ReplaceAll(name, ".", `\.`))
 		}
+		c.Paths = append(c.Paths, names)
 		c.Sels = append(c.Sels, strings.Join(parts, "."))
 	}
 	if _, same := t[c18ModelIdx].(float64); !same {
-		c.Model = c18Text(t[c18ModelIdx])
+		c.model, c.hasModel = t[c18ModelIdx], true
 	}
 	return c, nil
 }
@@ -186,11 +333,20 @@ func c18Unordered(s string) interface{} {
 	return v
 }
 
+func c18Short(s string) string {
+	if len(s) > 700 {
+		return s[:340] + " ...(" + fmt.Sprint(len(s)) + " bytes)... " + s[len(s)-340:]
+	}
+	return s
+}
+
 type c18Mismatch struct {
 	Plugin string   `json:"plugin"`
 	Kind   string   `json:"kind"` // key_order | content | invalid_json | panic
 	AsSwap bool     `json:"as_swap_delete_model"`
-	Event  int      `json:"event"` // 1 = first Do of the instance, 2 = second Do of the same instance
+	Event  int      `json:"event"` // n-th Do of the plugin instance
+	Width  int      `json:"width"` // 0 = not a widened case; else the number of junk members per marker
+	Order  string   `json:"width_order,omitempty"`
 	Fam    int      `json:"fam"`
 	Doc    string   `json:"doc"`
 	Fields []string `json:"fields"`
@@ -200,24 +356,21 @@ type c18Mismatch struct {
 	Case   string   `json:"case"`
 }
 
-// c18Do: one real plugin instance, two events
-func c18Exec(c *c18Case, params *pipeline.ActionPluginParams) (mm []*c18Mismatch) {
-	event := 0
+type c18Event struct {
+	width            int
+	doc, want, model string
+}
+
+// one real plugin instance, the given events in order
+func c18RunInstance(c *c18Case, params *pipeline.ActionPluginParams, events []c18Event, order string) (mm []*c18Mismatch) {
+	n := 0
+	cur := c18Event{}
 	defer func() {
 		if r := recover(); r != nil {
-			mm = append(mm, &c18Mismatch{Plugin: c18Plugin, Kind: "panic", Event: event, Fam: c.Fam, Doc: c.Doc,
-				Fields: c.Sels, Want: c.Want, Panic: fmt.Sprint(r), Case: c.Line})
+			mm = append(mm, &c18Mismatch{Plugin: c18Plugin, Kind: "panic", Event: n, Width: cur.width, Order: order, Fam: c.Fam,
+				Doc: c18Short(cur.doc), Fields: c.Sels, Want: c18Short(cur.want), Panic: fmt.Sprint(r), Case: c.Line})
 		}
 	}()
-	wantTok, err := c18Tokens(c.Want)
-	if err != nil {
-		panic("harness: expected document is not JSON: " + c.Want)
-	}
-	var modelTok []string
-	if c.Model != "" {
-		modelTok, _ = c18Tokens(c.Model)
-	}
-
 	pl, cf := factory()
 	cf.(*Config).Fields = append([]string(nil), c.Sels...)
 	test.NewConfig(cf, nil)
@@ -225,17 +378,23 @@ func c18Exec(c *c18Case, params *pipeline.ActionPluginParams) (mm []*c18Mismatch
 	p.Start(cf, params)
 	defer p.Stop()
 
-	for event = 1; event <= 2; event++ {
+	for i, ev := range events {
+		n, cur = i+1, ev
+		wantTok, err := c18Tokens(ev.want)
+		if err != nil {
+			panic("harness: expected document is not JSON: " + ev.want)
+		}
 		root := insaneJSON.Spawn()
-		if err := root.DecodeString(c.Doc); err != nil {
+		if err := root.DecodeString(ev.doc); err != nil {
 			insaneJSON.Release(root)
-			panic("harness: case document does not decode: " + c.Doc)
+			panic("harness: case document does not decode: " + ev.doc)
 		}
 		res := p.Do(&pipeline.Event{Root: root})
 		got := string(append([]byte(nil), root.Encode(nil)...))
 		insaneJSON.Release(root)
 
-		m := &c18Mismatch{Plugin: c18Plugin, Event: event, Fam: c.Fam, Doc: c.Doc, Fields: c.Sels, Want: c.Want, Got: got, Case: c.Line}
+		m := &c18Mismatch{Plugin: c18Plugin, Event: n, Width: ev.width, Order: order, Fam: c.Fam, Doc: c18Short(ev.doc),
+			Fields: c.Sels, Want: c18Short(ev.want), Got: c18Short(got), Case: c.Line}
 		if res != pipeline.ActionPass {
 			m.Kind = "content"
 			m.Panic = fmt.Sprintf("Do returned %v", res)
@@ -251,15 +410,66 @@ func c18Exec(c *c18Case, params *pipeline.ActionPluginParams) (mm []*c18Mismatch
 		if c18SameTokens(gotTok, wantTok) {
 			continue
 		}
-		if reflect.DeepEqual(c18Unordered(got), c18Unordered(c.Want)) {
+		if reflect.DeepEqual(c18Unordered(got), c18Unordered(ev.want)) {
 			m.Kind = "key_order"
 		} else {
 			m.Kind = "content"
 		}
-		m.AsSwap = modelTok != nil && c18SameTokens(gotTok, modelTok)
+		if ev.model != ev.want {
+			modelTok, _ := c18Tokens(ev.model)
+			m.AsSwap = c18SameTokens(gotTok, modelTok)
+		}
 		mm = append(mm, m)
 	}
 	return mm
+}
+
+func c18Predict(c *c18Case, doc, want *c18Node) *c18Node {
+	if c18IsKeep {
+		return c18PredictKeep(doc, want)
+	}
+	return c18PredictRemove(doc, c.Paths)
+}
+
+// returns the mismatches, whether the case is non-trivial, whether a re-ordering is predicted, and whether the
+// harness's order predictor disagrees with the specification's (self-check; must never happen)
+func c18Exec(c *c18Case, params *pipeline.ActionPluginParams) (mm []*c18Mismatch, nontrivial, reorder, predictorOff bool) {
+	if !c.Wide {
+		doc, want := c18Build(c.doc, 1), c18Build(c.want, 1)
+		ev := c18Event{doc: doc.text(), want: want.text()}
+		ev.model = ev.want
+		if c.hasModel {
+			ev.model = c18Build(c.model, 1).text()
+		}
+		predictorOff = c18Predict(c, doc, want).text() != ev.model
+		nontrivial = ev.want != ev.doc && ev.want != "{}"
+		reorder = ev.model != ev.want
+		return c18RunInstance(c, params, []c18Event{ev, ev}, ""), nontrivial, reorder, predictorOff
+	}
+	var asc []c18Event
+	for _, w := range c18Widths {
+		doc, want := c18Build(c.doc, w), c18Build(c.want, w)
+		ev := c18Event{width: w, doc: doc.text(), want: want.text(), model: c18Predict(c, doc, want).text()}
+		if w == 1 {
+			m := ev.want
+			if c.hasModel {
+				m = c18Build(c.model, 1).text()
+			}
+			predictorOff = ev.model != m
+			nontrivial = ev.want != ev.doc && ev.want != "{}"
+		}
+		if ev.model != ev.want {
+			reorder = true
+		}
+		asc = append(asc, ev)
+	}
+	desc := make([]c18Event, len(asc))
+	for i := range asc {
+		desc[len(asc)-1-i] = asc[i]
+	}
+	mm = append(mm, c18RunInstance(c, params, asc, "asc")...)
+	mm = append(mm, c18RunInstance(c, params, desc, "desc")...)
+	return mm, nontrivial, reorder, predictorOff
 }
 
 func TestVerifC18(t *testing.T) {
@@ -289,10 +499,10 @@ func TestVerifC18(t *testing.T) {
 	nw := runtime.GOMAXPROCS(0)
 	var wg sync.WaitGroup
 	var mu sync.Mutex
-	const perClass = 40
+	const perClass = 25
 	kept := map[string][]*c18Mismatch{}
 	counts := map[string]int{}
-	executed, nontrivial, reordering, bad := 0, 0, 0, 0
+	executed, events, wide, nontrivial, reordering, bad, predictorOff := 0, 0, 0, 0, 0, 0, 0
 	for wi := 0; wi < nw; wi++ {
 		wg.Add(1)
 		go func(wi int) {
@@ -306,17 +516,26 @@ func TestVerifC18(t *testing.T) {
 					mu.Unlock()
 					continue
 				}
-				mm := c18Exec(c, params)
+				mm, nt, ro, off := c18Exec(c, params)
 				mu.Lock()
 				executed++
-				if c.Want != c.Doc && c.Want != "{}" {
+				if c.Wide {
+					wide++
+					events += 2 * len(c18Widths)
+				} else {
+					events += 2
+				}
+				if nt {
 					nontrivial++
 				}
-				if c.Model != "" {
+				if ro {
 					reordering++
 				}
+				if off {
+					predictorOff++
+				}
 				for _, m := range mm {
-					class := fmt.Sprintf("%s/%v/event%d", m.Kind, m.AsSwap, m.Event)
+					class := fmt.Sprintf("%s/%v/event%d/width%d%s", m.Kind, m.AsSwap, m.Event, m.Width, m.Order)
 					counts[class]++
 					if len(kept[class]) < perClass {
 						kept[class] = append(kept[class], m)
@@ -331,8 +550,9 @@ func TestVerifC18(t *testing.T) {
 	for _, l := range kept {
 		mms = append(mms, l...)
 	}
-	res := map[string]interface{}{"plugin": c18Plugin, "executed": executed, "bad_lines": bad, "nontrivial": nontrivial,
-		"reordering_predicted": reordering, "mismatch_counts": counts, "mismatches": mms}
+	res := map[string]interface{}{"plugin": c18Plugin, "executed": executed, "events": events, "wide_cases": wide, "bad_lines": bad,
+		"nontrivial": nontrivial, "reordering_predicted": reordering, "predictor_disagrees": predictorOff,
+		"mismatch_counts": counts, "mismatches": mms}
 	b, _ := json.Marshal(res)
 	if err := os.WriteFile(out, b, 0o644); err != nil {
 		t.Fatal(err)
